@@ -8,6 +8,7 @@ from . import common
 from . import relchecks as rc
 from . import relreplay
 from . import findings as kf
+from . import exec_traces
 
 LAWS = ["DeclaredCols", "HistOK", "StepLaw", "PermLaw"]
 
@@ -71,7 +72,10 @@ def run_plan(prop, tier, plan, replay=None):
     stats["cases_emitted_distinct"] = len(cases)
     # (3) conformance: replay into the real code
     judge = plan.get("judge", default_judge)
+    prefix = exec_traces.start(prop) if plan.get("exec_traces") else None
     judge(prop, vd, cases, plan, stats)
+    # (4) conformance the other way: the executor's recorded steps validated by TLC
+    extra_cov = exec_traces.run(prop, vd, stats, tr, prefix, tier, laws=plan["exec_traces"]) if prefix else {}
     # evidence
     wall = time.time() - t0
     samples = [rc.short_case(c) for c in cases[:3]]
@@ -90,6 +94,8 @@ def run_plan(prop, tier, plan, replay=None):
         "exhaustive": False,
         "backends": list(plan.get("backends", relreplay.BACKENDS)),
     }
+    cov.update(extra_cov)
+    cov["traces_validated_against_impl"] += extra_cov.get("executor_traces_from_replay", 0) + extra_cov.get("executor_traces_from_repo_tests", 0)
     if plan.get("level", "model_checking") != "model_checking":
         cov["explanation"] = plan["explanation"]
     common.write_evidence(prop, tier, plan.get("level", "model_checking"), cov, wall, len(vd.violations),
@@ -217,6 +223,7 @@ PLAN_C08 = {
     "sim": dict(what="random pipelines of 3 steps over 2 tables of <=3 rows", num=(1500, 12000), rows=3, steps=3, **SIMT),
     "backends": ("pandas", "sqlite", "pg", "polars"),
     "opts": {"values": False, "col_order": True},
+    "exec_traces": ("columns", "walk"),
     "allow_raise": ("pandas", "sqlite", "pg", "polars"),
     "assumptions": ["only the column set (and the column order after select_columns) is compared; a backend that raises "
                     "returns no table and is not judged by this property",
@@ -241,6 +248,7 @@ PLAN_C09 = {
     "sims": [inter(["extend", "project"]), inter(["project", "cols"], steps=2), inter(["extend", "wextend"])],
     "backends": ("pandas", "sqlite", "polars"),
     "nontrivial": lambda c: has_op(c, ("project", "wextend")) and nt_rows(c, 2),
+    "exec_traces": ("rows",),
     "relevant_ops": ("project", "wextend"),
     "limit": (6000, 80000),
 }
